@@ -162,6 +162,7 @@ func c16Judge(c c16Case) (string, string, [16]byte) {
 
 func C16(args []string) {
 	r := core.Begin("C16", "model_checking", args)
+	r.WatchProgress(watchPeriod()) // the code under test runs in this process: a call that never returns must end the check
 	if p := replayArg(args); p != "" {
 		var f struct {
 			Case c16Case `json:"case"`
